@@ -184,7 +184,7 @@ func validate(c *core.Ctx, trace []byte, workers int) (ok bool, matched int, err
 }
 
 func randomTraces(c *core.Ctx, pl *pool, rnd *rand.Rand) error {
-	nScen := c.Pick(20, 160)
+	nScen := c.Pick(16, 160)
 	window := c.Pick(20, 72)
 	var recs []*recorded
 	outcomes := map[string]int{}
